@@ -90,6 +90,12 @@ impl Vm {
             if let "quote" | "define-syntax" = proc.as_str() {
                 return Ok(expr.clone());
             }
+            // quasiquoted data is not code: only the unquoted expressions are transformed
+            if proc == "quasiquote" && rest.is_pair() {
+                let template = self.transform_quasiquote(rest.car().unwrap(), 0)?;
+                let rest = Cell::new_pair(template, rest.cdr().unwrap().clone());
+                return Ok(Cell::new_pair(expr.car().unwrap().clone(), rest));
+            }
         }
 
         if let Some(sym) = self.heap.get_sym_ref(proc) {
@@ -115,6 +121,43 @@ impl Vm {
             let rest = self.transform(rest)?;
             Ok(Cell::new_improper_list(v, rest))
         }
+    }
+
+    /// Transform Quasiquote
+    ///
+    /// Apply pre-compilation transforms to the parts of a quasiquote template that
+    /// compile_quasiquote() compiles as expressions (an unquote at depth 0). Everything
+    /// else is data and is left alone.
+    fn transform_quasiquote(&mut self, expr: &Cell, mut depth: usize) -> Result<Cell, Error> {
+        if let Cell::Vector(vector) = expr {
+            let vector = vector.iter().map(|it| self.transform_quasiquote(it, depth));
+            return Ok(Cell::Vector(vector.collect::<Result<Vec<Cell>, Error>>()?));
+        }
+        if !expr.is_pair() {
+            return Ok(expr.clone());
+        }
+        if expr.car().unwrap().is_unquote() {
+            if depth == 0 {
+                return match expr.cdr().unwrap() {
+                    Cell::Pair(unquoted, rest) => Ok(Cell::new_pair(
+                        expr.car().unwrap().clone(),
+                        Cell::new_pair(self.transform(unquoted)?, rest.as_ref().clone()),
+                    )),
+                    _ => Ok(expr.clone()),
+                };
+            }
+            depth -= 1;
+        }
+        if expr.car().unwrap().is_quasiquote() {
+            depth += 1;
+        }
+        let mut v = vec![];
+        let mut rest = expr;
+        while rest.is_pair() {
+            v.push(self.transform_quasiquote(rest.car().unwrap(), depth)?);
+            rest = rest.cdr().unwrap();
+        }
+        Ok(Cell::new_improper_list(v, rest.clone()))
     }
 
     /// Compile Expression
